@@ -1973,8 +1973,13 @@ class CategoricalROI(Roi):
         # Note that we used ceil for lo, because if lo is 0.9 then we should
         # only select 1 and above.
 
-        lo = np.intp(np.ceil(lo) if lo > 0 else 0)
-        hi = np.intp(np.ceil(hi) if hi > 0 else 0)
+        # We also limit the values to a large value that can still be converted
+        # to an integer, since larger values (or infinity) would overflow.
+
+        max_index = np.iinfo(np.intp).max // 2
+
+        lo = np.intp(np.ceil(min(lo, max_index)) if lo > 0 else 0)
+        hi = np.intp(np.ceil(min(hi, max_index)) if hi > 0 else 0)
 
         roi = CategoricalROI()
         roi.update_categories(categories[lo:hi])
